@@ -177,6 +177,24 @@ class C04(Prop):
             for B, fmt, call in ((4096, "fasta", "read"), (7, "fasta", "readinfo"), (64, "unknown", "read"), (1, "fasta", "readseq"), (100, "unknown", "win"), (4096, "unknown", "read")):
                 ops.append("srcscan src=%s fmt=%s abc=%s B=%d call=%s C=2 W=50" % (src, fmt, "text" if B != 7 else "dna", B, call))
         cs.append({"name": "pipe-offsets", "sticky": 1, "ops": ops})
+        # the input map (inmap_fasta / inmap_embl / inmap_genbank / inmap_daemon) of every modelled format x alphabet, all 128 codes, compared
+        # exactly: the theorems are stated over inmapFasta abc etc.; generated inputs rarely hold control characters or punctuation
+        import random as _random
+        rg = _random.Random(4)
+        ops = []
+        for fmt_ in ("fasta", "hmmpgmd", "daemon", "embl", "uniprot", "genbank", "ddbj"):
+            if fmt_ == "fasta":
+                f_ = b">a d\nACGT\nAC\n"
+            elif fmt_ == "hmmpgmd":
+                f_ = S.gen_hmmpgmd(rg, "dna")[0]
+            elif fmt_ == "daemon":
+                f_ = S.gen_daemon(rg, "dna", nrec=2)[0]
+            else:
+                f_ = S.gen_linebased(rg, fmt_, "dna", tier="quick")[0]
+            ops.append("file ext=dat hex=" + hx(f_))
+            for abc_ in ("text", "dna", "rna", "amino"):
+                ops += ["open fmt=%s abc=%s B=4096" % (fmt_, abc_), "inmap", "read", "inmap", "close"]
+        cs.append({"name": "inmap-all-formats", "sticky": 0, "ops": ops})
         # regression (repaired by 283ccd7, was known finding C04:seebuf:line-geometry-accepts-long-last-line), seen through reverse windows
         cs.append({"name": "geometry-long-single-line", "sticky": 1,
                    "ops": ["file ext=fa hex=" + hx(b">A\nACGT\nAC\n>B\nACGTAC\n"), "open fmt=fasta abc=text B=4096", "readwin C=0 W=100", "readwin C=0 W=100", "reuse",
